@@ -22,10 +22,25 @@ def arr_obs(a):
     return (str(a.dtype), tuple(a.shape), a.tobytes().hex())
 
 
+def gap_position(spec):
+    """(normal, position): a plane through level-0 cell centres with no level-1 box within half a level-1 cell of it"""
+    for cn in range(3):
+        g, d0 = spec["geo_low"][cn], spec["dx0"][cn]
+        d1 = d0 / 2
+        for i in range(spec["grid0"][cn]):
+            pos = g + (i + 0.5) * d0
+            if all(not (g + lo[cn] * d1 - d1 / 2 <= pos <= g + (hi[cn] + 1) * d1 + d1 / 2) for lo, hi in spec["levels"][1]):
+                return cn, pos
+    return None
+
+
 def build_inputs(ctx):
     root = ctx.newdir("c12in_"); os.makedirs(root)
     rng = ctx.rng
-    p = plotgen.random_spec(rng, ndims=3, nlev=2, nf=3, data="smallint", B=2, nblk=[2, 1, 2], layout="scatter", refine_p=0.5)
+    for _ in range(40):
+        p = plotgen.random_spec(rng, ndims=3, nlev=2, nf=3, data="smallint", B=2, nblk=[2, 1, 2], layout="scatter", refine_p=0.5)
+        if gap_position(p) is not None:
+            break
     p["fields"] = ["density", "temp", "volFrac"]
     p["data"] = {"mode": "pestle", "seed": 5}
     plotgen.materialize(p, os.path.join(root, "plt00010"))
@@ -75,6 +90,12 @@ def scenarios(root, spec):
             obs[f"iter{lv}"] = [arr_obs(a) for a in pck[1][lv]]
             nb = len(spec["levels"][lv])
             obs[f"ondemand{lv}"] = [arr_obs(a) for a in pck[[0, 2]][lv].iter(list(range(nb))[::-1])]
+            # a strided field selection: the pool's per-file iteration against the box-by-box reads of the same selection
+            it = sorted(map(repr, (arr_obs(a) for a in pck[0:2:2][lv])))
+            bx = sorted(map(repr, (arr_obs(pck[0:2:2][lv][b]) for b in range(nb))))
+            obs[f"stride{lv}"] = it
+            if it != bx:
+                obs.setdefault("_inconsistent", []).append(f"level {lv}: iteration over pck[0:2:2] yields {len(it)} boxes that are not the {len(bx)} boxes read one by one")
         return obs
 
     def taste(w):
@@ -134,6 +155,10 @@ def scenarios(root, spec):
         "mandoline2d-twice-serial": mand_twice("plt2d", True, ["temp", "grid_level"], [{}, {}, {}]),
         "mandoline3d-twice-pool": mand_twice("plt00010", False, ["density"], [{"normal": 0, "pos": None}, {"normal": 2, "pos": None}, {"normal": 0, "pos": None}]),
         "mandoline3d-twice-serial": mand_twice("plt00010", True, ["density"], [{"normal": 0, "pos": None}, {"normal": 2, "pos": None}, {"normal": 0, "pos": None}]),
+        **({"mandoline3d-gap-pool": mand_ret("plt00010", False, fields=["density", "grid_level"], normal=gap_position(spec)[0], pos=gap_position(spec)[1]),
+            "mandoline3d-gap-serial": mand_ret("plt00010", True, fields=["density", "grid_level"], normal=gap_position(spec)[0], pos=gap_position(spec)[1]),
+            "mandoline-plotfile-gap": tree(lambda w: tools.mandoline(I("plt00010"), "plotfile", os.path.join(w, "o"), ["temp"], gap_position(spec)[0], gap_position(spec)[1]))}
+           if gap_position(spec) is not None else {}),
         "mandoline-plotfile": tree(lambda w: tools.mandoline(I("plt00010"), "plotfile", os.path.join(w, "o"), ["temp"], 0, None)),
         "pestle": lambda w: {"integral": fbits(tools.pestle(I("plt00010"), "density", None, True))},
         "pestle-many": lambda w: {"integral": fbits(tools.pestle(I("pltmany"), "density", None, False)),
@@ -146,7 +171,7 @@ def scenarios(root, spec):
     return S
 
 
-SERIAL_OF = {"chef-pool": "chef-serial", "chef-thermo-pool": "chef-thermo-serial", "mandoline3d-pool": "mandoline3d-serial", "mandoline2d-pool": "mandoline2d-serial",
+SERIAL_OF = {"chef-pool": "chef-serial", "chef-thermo-pool": "chef-thermo-serial", "mandoline3d-gap-pool": "mandoline3d-gap-serial", "mandoline3d-pool": "mandoline3d-serial", "mandoline2d-pool": "mandoline2d-serial",
              "mandoline2d-twice-pool": "mandoline2d-twice-serial", "mandoline3d-twice-pool": "mandoline3d-twice-serial"}
 
 
@@ -216,6 +241,8 @@ def run(ctx, rep, model=True):
         try:
             refs[name], touched = run_scn(ctx, fn, None, None, audit_tasks=True)
             check_disjoint(rep, case, touched)
+            for msg in (refs[name] or {}).get("_inconsistent", []) if isinstance(refs[name], dict) else []:
+                rep.fail(f"{name}: the pool result differs from the serial result: {msg}", case)
             rep.extra.setdefault("pool_calls", {})[name] = [(f, len(t)) for f, t in (touched or [])]
         except Exception as e:
             rep.fail(f"{name} raised {type(e).__name__}: {e}", case)
